@@ -36,11 +36,11 @@ ASSUMPTIONS = [
 FLOORS = {
     "quick": {"definitions": 1500, "uses:ACCEPT": 15000, "uses:REJECT": 30000,
               "trees-compared": 15000, "roundtrips": 15000, "unregistered-probes": 5000,
-              "roundtrips-of-accepted-unspecified-uses": 1000, "derived-definitions": 300,
+              "uses:UNSPEC": 1000, "derived-definitions": 300,
               "derived-uses:ACCEPT": 3000},
     "thorough": {"definitions": 8000, "uses:ACCEPT": 150000, "uses:REJECT": 150000,
                  "trees-compared": 150000, "roundtrips": 150000, "unregistered-probes": 16000,
-                 "roundtrips-of-accepted-unspecified-uses": 8000, "derived-definitions": 3000,
+                 "uses:UNSPEC": 8000, "derived-definitions": 3000,
                  "derived-uses:ACCEPT": 30000},
 }
 SHARD_TIMEOUT = {"quick": 600, "thorough": 3000}
